@@ -9,6 +9,8 @@ the non-vacuity example of `cache_transparent` in Props.lean; on the real driver
 corpus/C07/refused-then-driver.case.)
 -/
 import NV.C07.Model
+import NV.C07.Compress
+import NV.C07.Binary
 
 namespace NV.C07.Witness
 
@@ -62,6 +64,55 @@ theorem origin_stored_once_runs_static :
     let g0 : Cache × Nat := (Cache.empty, originCallOther)
     (targetStoredOnce w0 g0 0 1 1).1 = .fail ∧
     (targetStoredOnce w0 (targetStoredOnce w0 g0 0 1 1).2 0 1 1).1 = .call 0 0 0 0 := by
+  decide
+
+/-! ### compress_function_tables before the `fix:` commit for its overflow branch
+
+`compressG false` is the code as it was: in the "Woops" branch `num_compressed = i` (readers then take
+`first_defined - num_compressed = f_ov` for the number of index bytes) and `n_def` keeps its old value (the entries from
+the new first_defined on are not all copied).  The table is the one the compiler builds for
+`inherit A; inherit B;` where B inherits A and A defines 260 functions (corpus/C07/compress-overflow-260.case):
+slots 0..259 were taken over by B's definitions (entry `inh 1 i`, not at the expected place), slots 260..520 are B's. -/
+
+def wideTab : RTab :=
+  { flags := List.replicate 521 nameInherited,
+    rt := (List.range 260).map (fun i => REntry.inh 1 i) ++ (List.range 261).map (fun i => REntry.inh 1 i),
+    inherit := [{ prog := 0, fio := 0, vio := 0 }, { prog := 1, fio := 260, vio := 1 }] }
+
+/-- with the old code: slot 0 is read back as `inh 0 0` (the FIRST copy of A: other variables) instead of `inh 1 0`,
+    and slot 300 lies beyond the stored table (the heap-buffer-overflow ASan reports on the real driver); with the
+    repaired code both are right (instance of `find_func_entry_compress`) -/
+theorem old_compress_overflow_branch_loses_entries :
+    wideTab.cmpWF = true ∧
+    (compressG false wideTab).bind (fun c => findFuncEntry wideTab.inherit c 0) = some (.inh 0 0) ∧
+    (compressG false wideTab).map (fun c => findFuncEntry wideTab.inherit c 300) = some none ∧
+    (compressG true wideTab).bind (fun c => findFuncEntry wideTab.inherit c 0) = some (.inh 1 0) ∧
+    (compressG true wideTab).bind (fun c => findFuncEntry wideTab.inherit c 300) = some (.inh 1 40) := by
+  decide +kernel
+
+/-! ### sort_function_table with `temp[oldix]` instead of `inverse[oldix]` (a seeded change the check first missed) -/
+
+/-- the fix-up written with the sort permutation itself instead of its inverse -/
+def permuteBad (P : Program) (order : List Nat) : Program :=
+  { P with
+    ft := order.filterMap (fun i => P.ft[i]?),
+    rt := (P.flags.zip P.rt).map fun x =>
+      if hasBit x.1 nameInherited then x.2
+      else match x.2 with
+        | .defn fi na => .defn (order.getD fi 0) na
+        | e => e }
+
+def P3 : Program :=
+  { id := 1, ft := [{ name := 10, rindex := 0, nameStr := "a" }, { name := 20, rindex := 1, nameStr := "b" },
+                    { name := 30, rindex := 2, nameStr := "c" }],
+    flags := [0, 0, 0], rt := [.defn 0 0, .defn 1 0, .defn 2 0], inherit := [] }
+
+/-- a 3-cycle is not its own inverse: slot 0 (function "a") then denotes another function; a reversal (its own
+    inverse) or the identity hide the mistake — which is why the generator re-creates the names in RANDOM orders -/
+theorem temp_instead_of_inverse_misdispatches :
+    (slotEntry (permuteBad P3 [2, 0, 1]) 0).map (·.nameStr) = some "b" ∧
+    (slotEntry (permuteProgram P3 [2, 0, 1]) 0).map (·.nameStr) = some "a" ∧
+    (slotEntry (permuteBad P3 [2, 1, 0]) 0).map (·.nameStr) = some "a" := by
   decide
 
 end NV.C07.Witness
